@@ -57,6 +57,8 @@ impl<T: Sized> Drop for JoinHandle<T> {
                 // The thread got its work done first, we need to wait for it to exit, signalled
                 // by the OS through the futex, then we know we have exclusive access to the memory.
                 futex_wait_fast(self.tsm.get_futex(), UNFINISHED);
+                // Nobody will join, drop the value the thread left behind before freeing its slot
+                drop((*self.tsm.value_mut::<T>()).take());
                 self.tsm.dealloc();
             }
         }
@@ -295,6 +297,8 @@ where
                 // the kernel will try to update the value, and futex_wake on it, which will
                 // cause a segfault.
                 sc::syscall!(SET_TID_ADDRESS, 0);
+                // Nobody will join, drop the value before freeing its slot
+                drop((*tsm.value_mut::<T>()).take());
                 tsm.dealloc();
             }
             // Also dealloc the local storage for this thread, nobody needs that anymore
